@@ -286,12 +286,21 @@ def gen(r, tier, i):
                     ups.append(entry)
                 batch.append({'path': b['path'] + [name], 'updates': ups})
         return batch
+    alias = r.random() < 0.2
+    if alias:
+        # all variables of one mutable kind are declared with ONE default object (a module-level constant, or
+        # the sub-schema shared by the children of a glob store): they must still evolve independently
+        first = {}
+        for b in branches:
+            for var in b['vars'].values():
+                if var['kind'] in ('dictv', 'dict', 'list', 'iarr', 'farr') and not var.get('units'):
+                    var['default'] = copy.deepcopy(first.setdefault((var['kind']), var['default']))
     keys_of = {}
     batch = gen_batch(keys_of)
     via = r.choice(['store', 'store', 'engine'])
     # a second batch applied to the same store afterwards (state must not leak from the first one)
     batch2 = gen_batch(keys_of) if via == 'store' and r.random() < 0.5 else None
-    return {'branches': branches, 'batch': batch, 'batch2': batch2, 'via': via}
+    return {'branches': branches, 'batch': batch, 'batch2': batch2, 'via': via, 'alias_defaults': alias}
 
 
 # ---------------------------------------------------------------------------
@@ -330,12 +339,15 @@ def run(spec):
     schema = {}
     model_state = {}
     var_of = {}
+    shared_defaults = {}
     for b in spec['branches']:
         node = schema
         for k in b['path']:
             node = node.setdefault(k, {})
         for name, var in b['vars'].items():
             cfg = {'_default': real(var['default'])}
+            if spec.get('alias_defaults') and var['kind'] in ('dictv', 'dict', 'list', 'iarr', 'farr'):
+                cfg['_default'] = shared_defaults.setdefault(var['kind'], cfg['_default'])
             if var['upd'] == 'user_fn':
                 cfg['_updater'] = 'vmon_user_fn' if var.get('fn_by') == 'name' else user_fn
             elif var['upd'] != 'default':
